@@ -12,6 +12,7 @@ mod c07;
 mod c08;
 mod c09;
 mod c10;
+mod c11;
 mod c12;
 mod c12b;
 mod c12k;
@@ -68,6 +69,7 @@ fn main() {
         "c20" => c20::emit(&mut e, seed, thorough),
         "c09" => c09::emit(&mut e, seed, thorough),
         "c10" => c10::emit(&mut e, seed, thorough),
+        "c11" => c11::emit(&mut e, seed, thorough),
         "c19" => c19::emit(&mut e, seed, thorough),
         "c18" => c18::emit(&mut e, seed, thorough),
         "c17" => c17::emit(&mut e, seed, thorough),
